@@ -138,6 +138,18 @@ Theorem C04_final_states_fixed_cycles : forall types x s k,
 Proof. exact final_states_fixed_cycles_thm. Qed.
 Print Assumptions C04_final_states_fixed_cycles.
 
+(* a remote unit that never started and has Failed (its time to live ran out, it was cancelled
+   locally, an earlier restart failed it) is marked Failed again by every restart: the record —
+   state, size, work type, binding — is rewritten as it was *)
+Theorem C04_failed_unstarted_remote_fixed : forall types x s,
+  uf_dir x = true -> uf_status x = Some (encode s) ->
+  kind_of types (s_wtype s) = KRemote -> started s = false ->
+  s_state s = S_FAILED -> s_size s = stdout_size x ->
+  snd (recover types x) = mkView true true s false /\
+  uf_status (fst (recover types x)) = Some (encode s) /\ core (fst (recover types x)) = core x.
+Proof. exact failed_unstarted_remote_fixed_thm. Qed.
+Print Assumptions C04_failed_unstarted_remote_fixed.
+
 (* the hypotheses of C04_partial are satisfiable by a non-trivial history: the finished unit of
    the refutation, the same operation of the daemon, killed one step later (after the rewrite) *)
 Example C04_nonvacuous :
